@@ -1,6 +1,7 @@
 package conc
 
 import (
+	"bytes"
 	"context"
 	"encoding/json"
 	"fmt"
@@ -8,6 +9,7 @@ import (
 	"sync/atomic"
 	"time"
 
+	"verifharness/internal/kv"
 	"verifharness/internal/rng"
 
 	sgbucket "github.com/couchbase/sg-bucket"
@@ -158,12 +160,14 @@ func JoinRun(m *MultiBucket, writers, opsEach, keys int, r *rng.R) (JoinResult, 
 // ---------------------------------------------------------------- checkpointed feeds (C15)
 
 type CheckpointResult struct {
-	Runs            int      `json:"runs"`
-	Delivered       int      `json:"delivered"`
-	StopsWithQueued int      `json:"stopsWithQueuedEvents"`
-	StopsWhileBusy  int      `json:"stopsWhileWritersActive"`
-	Checkpoints     []uint64 `json:"checkpoints"`
-	Writes          int      `json:"writes"`
+	Runs                 int      `json:"runs"`
+	Delivered            int      `json:"delivered"`
+	StopsWithQueued      int      `json:"stopsWithQueuedEvents"`
+	StopsWhileBusy       int      `json:"stopsWhileWritersActive"`
+	Checkpoints          []uint64 `json:"checkpoints"`
+	Writes               int      `json:"writes"`
+	OfflineRecreations   int      `json:"recreationsWhileStopped"`
+	FinalVersionsChecked int      `json:"finalVersionsChecked"`
 }
 
 type cpDoc struct {
@@ -204,9 +208,11 @@ func CheckpointRun(m *MultiBucket, writers, opsEach, keys, restarts int, r *rng.
 	go func() { wg.Wait(); close(writersDone) }()
 
 	delivered := map[string]bool{} // key/cas
+	newest := map[string]FEv{}     // per key: the delivered event with the highest CAS
 	var maxDelivered uint64
 	runFeed := func(dump bool, stopAfter int) string {
 		f := NewFeedLog(id, 0, 0)
+		f.KeepVal = true
 		park := make(chan struct{}, 1<<16)
 		f.Park = park
 		args := sgbucket.FeedArguments{ID: id, Backfill: sgbucket.FeedResume, CheckpointPrefix: prefix, Dump: dump, Terminator: f.Term, DoneChan: f.Done}
@@ -268,6 +274,9 @@ func CheckpointRun(m *MultiBucket, writers, opsEach, keys, restarts int, r *rng.
 				continue
 			}
 			delivered[fmt.Sprintf("%s/%d", e.Key, e.Cas)] = true
+			if n, ok := newest[e.Key]; !ok || e.Cas >= n.Cas {
+				newest[e.Key] = e
+			}
 			res.Delivered++
 			if e.Cas > maxDelivered {
 				maxDelivered = e.Cas
@@ -289,11 +298,78 @@ func CheckpointRun(m *MultiBucket, writers, opsEach, keys, restarts int, r *rng.
 		}
 		return ""
 	}
+	// While the feed is stopped, keys of their own go through delete -> (tombstone delivered and checkpointed) ->
+	// re-creation; nobody touches them afterwards, so the re-created version is their final one and only a resume can
+	// deliver it.
+	type pend struct {
+		key  string
+		tcas uint64
+	}
+	var pending []pend
+	var offKeys []string
+	offline := func(i int) {
+		lastCp := uint64(0)
+		if n := len(res.Checkpoints); n > 0 {
+			lastCp = res.Checkpoints[n-1]
+		}
+		var keep []pend
+		for _, p := range pending {
+			if p.tcas == 0 || p.tcas > lastCp {
+				keep = append(keep, p)
+				continue
+			}
+			body := []byte(fmt.Sprintf(`{"reborn":%q}`, p.key))
+			var err error
+			switch r.Intn(6) {
+			case 0:
+				_, err = col.Add(p.key, 0, body)
+			case 1:
+				_, err = col.AddRaw(p.key, 0, body)
+			case 2:
+				_, err = col.WriteCas(p.key, 0, 0, body, 0)
+			case 3:
+				err = col.Set(p.key, 0, nil, body)
+			case 4:
+				_, err = col.WriteResurrectionWithXattrs(ctxBG, p.key, 0, body, map[string][]byte{"_sync": []byte(`{"r":1}`)}, nil)
+			default:
+				_, err = col.Update(p.key, 0, func(cur []byte) ([]byte, *uint32, bool, error) { return body, nil, false, nil })
+			}
+			if err == nil {
+				res.OfflineRecreations++
+			}
+		}
+		pending = keep
+		for j := 0; j < 2; j++ {
+			k := fmt.Sprintf("off%d_%d", i, j)
+			if col.Set(k, 0, nil, []byte(`{"first":1}`)) != nil {
+				continue
+			}
+			var err error
+			switch r.Intn(3) {
+			case 0:
+				err = col.Delete(k)
+			case 1:
+				_, err = col.Remove(k, 0)
+			default:
+				_, err = col.WriteTombstoneWithXattrs(ctxBG, k, 0, 0, map[string][]byte{"_sync": []byte(`{"d":1}`)}, nil, true, nil)
+			}
+			offKeys = append(offKeys, k)
+			if err == nil {
+				if out := Call(col, In{Kind: OGetX, Key: k}); out.Cas != 0 {
+					pending = append(pending, pend{k, out.Cas})
+					continue
+				}
+				_, c2, _ := col.GetRaw(k)
+				pending = append(pending, pend{k, c2})
+			}
+		}
+	}
 	for i := 0; i < restarts; i++ {
 		if msg := runFeed(false, r.Intn(6)); msg != "" {
 			<-writersDone
 			return res, msg, map[string]any{"result": res}
 		}
+		offline(i)
 		time.Sleep(time.Duration(r.Intn(800)) * time.Microsecond)
 	}
 	<-writersDone
@@ -301,8 +377,27 @@ func CheckpointRun(m *MultiBucket, writers, opsEach, keys, restarts int, r *rng.
 	if msg := runFeed(true, 0); msg != "" {
 		return res, msg, map[string]any{"result": res}
 	}
+	var finalKeys []string
 	for i := 0; i < keys; i++ {
-		for _, k := range []string{fmt.Sprintf("k%d", i), fmt.Sprintf("nk%d", i)} {
+		finalKeys = append(finalKeys, fmt.Sprintf("k%d", i), fmt.Sprintf("nk%d", i))
+	}
+	finalKeys = append(finalKeys, offKeys...)
+	{
+		for _, k := range finalKeys {
+			// the newest version the feed's runs delivered for the key must be the document as it is now
+			raw, _, gerr := col.GetRaw(k)
+			n, have := newest[k]
+			res.FinalVersionsChecked++
+			switch {
+			case gerr == nil && !have:
+				return res, fmt.Sprintf("skipped|key %s holds a body but no run of the checkpointed feed delivered any version of it (checkpoints %v)", k, res.Checkpoints), map[string]any{"key": k, "result": res}
+			case gerr == nil && n.Op == uint8(sgbucket.FeedOpDeletion):
+				return res, fmt.Sprintf("skipped|key %s holds a body, but the newest version the checkpointed feed delivered (CAS %d) is a deletion: its re-creation was skipped (checkpoints %v)", k, n.Cas, res.Checkpoints), map[string]any{"key": k, "result": res}
+			case gerr == nil && !bytes.Contains(n.Val, raw):
+				return res, fmt.Sprintf("skipped|key %s holds %q, but the newest version the checkpointed feed delivered (CAS %d) carries another body (checkpoints %v)", k, raw, n.Cas, res.Checkpoints), map[string]any{"key": k, "result": res}
+			case gerr != nil && kv.ErrClass(gerr) == "missing" && have && n.Op != uint8(sgbucket.FeedOpDeletion):
+				return res, fmt.Sprintf("skipped|key %s has no body, but the newest version the checkpointed feed delivered (CAS %d) is a mutation: its deletion was skipped (checkpoints %v)", k, n.Cas, res.Checkpoints), map[string]any{"key": k, "result": res}
+			}
 			out := Call(col, In{Kind: OGetX, Key: k})
 			var final uint64
 			switch out.Err {
